@@ -71,6 +71,187 @@ Proof.
   - destruct (ol_cff o); [discriminate|reflexivity].
 Qed.
 
+(* ---------- the merge rules on the tables Write produces ---------- *)
+
+Section Cycle.
+Variable f : font.
+Variable hw : option (list Z).
+Variable ws : list Z.
+Let T := M_codec (M_write_tables f hw ws).
+
+Lemma T_name : mg_name T = Some (M_write_name f).
+Proof. reflexivity. Qed.
+
+Lemma T_family : mg_family T = f_family f.
+Proof.
+  unfold mg_family. rewrite T_name. cbn [M_write_name n_family].
+  destruct (str_empty (f_family f)) eqn:E; [|reflexivity].
+  subst T. unfold M_codec, M_write_tables. cbn [t_ci].
+  destruct (ol_cff (f_outl f)); reflexivity.
+Qed.
+
+Lemma T_weight : mg_weight T = f_weight f.
+Proof.
+  unfold mg_weight. subst T. unfold M_codec, M_write_tables, codec_os2.
+  cbn [t_o2 t_ci option_map o_weight].
+  destruct (f_weight f =? 0)%N eqn:E; [|reflexivity].
+  apply N.eqb_eq in E. destruct (ol_cff (f_outl f)); [|reflexivity].
+  cbn [c_weight]. rewrite E. exact weight_zero_roundtrip.
+Qed.
+
+Lemma T_version : (ver_to_milli (f_version f) <? 65536000)%N = true ->
+  mg_version T = norm_version (f_version f).
+Proof.
+  intros H. unfold mg_version. rewrite T_name. cbn [M_write_name n_version].
+  pose proof (version_cycle _ H) as E.
+  destruct (version_from_string (s_Version_sp ++ version_string (f_version f))) eqn:D; [exact E|].
+  (* unreachable: the printed version always parses *)
+  exfalso. unfold version_string in D. rewrite version_from_string_print in D. discriminate.
+Qed.
+
+Lemma T_os2 : t_o2 T =
+  Some (codec_os2 (mkOs2 (f_weight f) (f_width f) (f_bold f) (negb (f_angle f =? 0)) (f_regular f) (f_oblique f)
+                 (f_asc f) (f_desc f) (f_gap f) (f_cap f) (f_xh f)
+                 (if f_serif f then 768 else if f_script f then 2560 else 0) (f_cpr f) (f_perm f))).
+Proof. reflexivity. Qed.
+
+Lemma T_angle hm : mg_angle T hm = f_angle f.
+Proof. reflexivity. Qed.
+
+Lemma T_italic hm : mg_italic T hm = f_italic f || negb (f_angle f =? 0) || f_oblique f.
+Proof.
+  unfold mg_italic. rewrite T_angle, T_name, T_os2.
+  cbn [M_write_name n_subfamily].
+  change (contains s_Italic (subfamily f)) with (italic_test (subfamily f)).
+  rewrite subfamily_italic_test.
+  unfold codec_os2. cbn [o_italic o_oblique o_bold o_regular].
+  rewrite os2_sel_indep. cbn [o_bold o_italic o_regular o_oblique].
+  destruct (codec_sel (f_regular f) (negb (f_angle f =? 0)) (f_bold f) (f_oblique f)) as (_ & Hi & _ & Ho).
+  cbv zeta in Hi, Ho. rewrite Hi, Ho.
+  subst T. unfold M_codec, M_write_tables, codec_head. cbn [t_hd option_map h_italic].
+  destruct (f_italic f), (negb (f_angle f =? 0)), (f_oblique f), (f_regular f); reflexivity.
+Qed.
+
+Lemma T_bold : mg_bold T = (f_bold f && negb (f_regular f)) || name_says_bold f.
+Proof.
+  unfold mg_bold. rewrite T_name, T_os2.
+  cbn [M_write_name n_subfamily].
+  change (contains s_Bold (subfamily f) && negb (contains s_SemiBold (subfamily f))
+          && negb (contains s_ExtraBold (subfamily f))) with (bold_test (subfamily f)).
+  rewrite subfamily_bold_test.
+  unfold codec_os2. cbn [o_bold].
+  rewrite os2_sel_indep. cbn [o_bold o_italic o_regular o_oblique].
+  destruct (codec_sel (f_regular f) (negb (f_angle f =? 0)) (f_bold f) (f_oblique f)) as (Hb & _).
+  cbv zeta in Hb. rewrite Hb. reflexivity.
+Qed.
+
+Lemma T_regular hm :
+  mg_regular T hm =
+  f_regular f && negb ((f_italic f || negb (f_angle f =? 0) || f_oblique f)
+                       || ((f_bold f && negb (f_regular f)) || name_says_bold f)).
+Proof.
+  unfold mg_regular. rewrite T_italic, T_bold, T_os2.
+  unfold codec_os2. cbn [o_regular].
+  rewrite os2_sel_indep. cbn [o_bold o_italic o_regular o_oblique].
+  destruct (codec_sel (f_regular f) (negb (f_angle f =? 0)) (f_bold f) (f_oblique f)) as (_ & _ & Hr & _).
+  cbv zeta in Hr. rewrite Hr.
+  destruct (_ || _); destruct (f_regular f); reflexivity.
+Qed.
+
+Lemma T_oblique : mg_oblique T = f_oblique f.
+Proof.
+  unfold mg_oblique. rewrite T_os2. unfold codec_os2. cbn [o_oblique].
+  rewrite os2_sel_indep. cbn [o_bold o_italic o_regular o_oblique].
+  destruct (codec_sel (f_regular f) (negb (f_angle f =? 0)) (f_bold f) (f_oblique f)) as (_ & _ & _ & Ho).
+  exact Ho.
+Qed.
+
+Lemma T_serif : mg_serif T = f_serif f.
+Proof.
+  unfold mg_serif, mg_fclass. rewrite T_os2. unfold codec_os2. cbn [o_fclass is_some andb].
+  exact (proj1 (family_class_serif (f_serif f) (f_script f))).
+Qed.
+
+Lemma T_script : mg_script T = negb (f_serif f) && f_script f.
+Proof.
+  unfold mg_script, mg_fclass. rewrite T_os2. unfold codec_os2. cbn [o_fclass is_some andb].
+  exact (proj2 (family_class_serif (f_serif f) (f_script f))).
+Qed.
+
+Lemma T_cap o : mg_cap T o = height_fallback (if 0 <? f_cap f then f_cap f else 0) (f_cmap f) o cm_H.
+Proof. reflexivity. Qed.
+Lemma T_xh o : mg_xh T o = height_fallback (if 0 <? f_xh f then f_xh f else 0) (f_cmap f) o cm_x.
+Proof. reflexivity. Qed.
+
+Lemma T_perm : match t_o2 T with Some o2 => o_perm o2 | None => 0 end = norm_perm (f_perm f).
+Proof. rewrite T_os2. unfold codec_os2. cbn [o_perm]. apply codec_perm. Qed.
+
+Lemma T_gsub o : mg_gsub T o =
+  match f_gsub f with
+  | Some g => Some g
+  | None => if is_fixed_pitch (font_widths o) then None
+            else match f_cmap f with Some c => if cm_best c then cm_lig c else None | None => None end
+  end.
+Proof. reflexivity. Qed.
+
+(* all fields at once *)
+Lemma T_fields hm : (ver_to_milli (f_version f) <? 65536000)%N = true ->
+  merge_fields T hm (f_outl f) = normalize f.
+Proof.
+  intros Hver. unfold merge_fields, normalize.
+  rewrite T_family, T_weight, (T_version Hver), T_italic, T_bold, T_regular, T_oblique, T_serif, T_script,
+    T_cap, T_xh, T_perm, T_angle, T_gsub, T_name.
+  reflexivity.
+Qed.
+End Cycle.
+
+Lemma cycle_counts f : (1 <=? ol_n (f_outl f))%N = true -> valid_widths (f_outl f) = true ->
+  let T := M_codec (M_write_tables f (ol_widths (f_outl f)) (font_widths (f_outl f))) in
+  merge_counts T = Ok (ol_n (f_outl f), t_hm T).
+Proof.
+  intros Hn Hv T. unfold merge_counts.
+  assert (E1 : t_maxp T = Some (ol_n (f_outl f), ol_maxp (f_outl f))) by reflexivity.
+  assert (E2 : widths_len (t_hm T) =
+               match ol_widths (f_outl f) with Some w => N.of_nat (length w) | None => 0%N end) by reflexivity.
+  rewrite E1, E2. unfold valid_widths in Hv. apply N.leb_le in Hn.
+  destruct (ol_widths (f_outl f)) as [w|].
+  - apply N.eqb_eq in Hv. rewrite Hv.
+    assert (E0 : (0 <? ol_n (f_outl f))%N = true) by lia. rewrite E0.
+    assert (E3 : (ol_n (f_outl f) =? 0)%N = false) by lia. rewrite E3.
+    rewrite N.ltb_irrefl, N.eqb_refl. reflexivity.
+  - reflexivity.
+Qed.
+
+Lemma cycle_outl f : (1 <=? ol_n (f_outl f))%N = true -> valid_widths (f_outl f) = true ->
+  (if ol_cff (f_outl f) then negb (is_some (ol_names (f_outl f))) && negb (is_some (ol_maxp (f_outl f))) else true) = true ->
+  let T := M_codec (M_write_tables f (ol_widths (f_outl f)) (font_widths (f_outl f))) in
+  merge_outl T (ol_n (f_outl f)) (t_hm T) = Ok (f_outl f).
+Proof.
+  intros Hn Hv Hc T. unfold merge_outl.
+  assert (E1 : t_cff T = ol_cff (f_outl f)) by reflexivity.
+  assert (E2 : t_ol T = codec_outl (f_outl f)) by reflexivity.
+  assert (E3 : t_maxp T = Some (ol_n (f_outl f), ol_maxp (f_outl f))) by reflexivity.
+  assert (E4 : hmtx_widths (t_hm T) =
+               match ol_widths (f_outl f) with Some ((_ :: _) as w) => Some w | _ => None end) by reflexivity.
+  assert (E5 : match t_po T with Some p => p_names p | None => None end =
+               if ol_cff (f_outl f) then None else ol_names (f_outl f)) by reflexivity.
+  assert (E6 : exists h, t_hd T = Some h) by (eexists; reflexivity).
+  destruct E6 as (h & E6).
+  rewrite E1, E2, E3, E4, E5, E6. clear E1 E2 E3 E4 E5 E6 T.
+  unfold valid_widths in Hv. apply N.leb_le in Hn.
+  destruct (f_outl f) as [cff oid n heights widths names maxp].
+  cbn [ol_cff ol_id ol_n ol_heights ol_widths ol_names ol_maxp codec_outl] in *.
+  assert (En : (n =? 0)%N = false) by lia.
+  destruct cff; cbn [ol_cff ol_id ol_n ol_heights ol_widths ol_names ol_maxp];
+    rewrite En, N.eqb_refl; cbn [negb andb].
+  - apply andb_prop in Hc as [Hc1 Hc2].
+    destruct names; [discriminate|]. destruct maxp; [discriminate|].
+    destruct widths as [w|]; [|discriminate].
+    destruct w; reflexivity.
+  - destruct widths as [w|]; [|reflexivity].
+    apply N.eqb_eq in Hv. destruct w; [cbn in Hv; lia|reflexivity].
+Qed.
+
 Theorem cycle_normal_form f : in_range f = true ->
   M_cycle f = Ok (M_codec (M_write_tables f (ol_widths (f_outl f)) (font_widths (f_outl f))), normalize f).
 Proof.
@@ -79,48 +260,93 @@ Proof.
   apply andb_prop in Hr as [Hn Hv].
   unfold M_cycle, M_write_derive. rewrite (write_widths_in_range _ Hn Hv).
   cbn [obind fst snd].
-  set (T := M_codec _).
-  enough (E : M_read_merge T = Ok (normalize f)) by (rewrite E; reflexivity).
-  subst T.
-  destruct f as [family width weight regular bold italic oblique serif script cpr version
-                 ctime mtime descr sample copyright trademark license licurl perm upm
-                 asc desc gap cap xh angle upos uthick o cm gdef gsub gpos].
-  cbn [f_outl f_version] in *.
-  destruct o as [cff oid n heights widths names maxp].
-  cbn [ol_cff ol_n ol_names ol_maxp] in *.
-  unfold valid_widths in Hv. cbn [ol_widths ol_cff ol_n] in Hv.
-  apply N.leb_le in Hn.
-  (* the version *)
-  pose proof (version_cycle version Hver) as Hvers.
-  unfold M_read_merge, M_codec, M_write_tables, M_write_name, codec_outl, codec_head, codec_os2.
-  cbn [t_cff t_hd t_hm t_maxp t_o2 t_cm t_nm t_po t_ci t_ol t_gdef t_gsub t_gpos
-       f_family f_width f_weight f_regular f_bold f_italic f_oblique f_serif f_script f_cpr f_version
+  enough (E : M_read_merge (M_codec (M_write_tables f (ol_widths (f_outl f)) (font_widths (f_outl f))))
+              = Ok (normalize f)) by (rewrite E; reflexivity).
+  unfold M_read_merge.
+  rewrite (cycle_counts f Hn Hv). cbn [obind fst snd].
+  rewrite (cycle_outl f Hn Hv Hcff). cbn [obind].
+  rewrite (T_fields f _ _ _ Hver). reflexivity.
+Qed.
+
+(* ---------- idempotence ---------- *)
+
+Lemma norm_perm_idem p : norm_perm (norm_perm p) = norm_perm p.
+Proof.
+  unfold norm_perm. destruct ((p =? 1) || (p =? 2) || (p =? 3)) eqn:E; [rewrite E; reflexivity|reflexivity].
+Qed.
+
+Lemma codec_time_idem t : codec_time (codec_time t) = codec_time t.
+Proof.
+  destruct t as [u|]; [|reflexivity]. cbn [codec_time].
+  destruct (u - zero1904 =? 0) eqn:E; [reflexivity|]. cbn [codec_time]. rewrite E. reflexivity.
+Qed.
+
+Lemma round16_grid k : round16 (k * 65536) = k.
+Proof. unfold round16. destruct (0 <=? k * 65536) eqn:E; lia. Qed.
+
+Lemma norm_version_idem v : (ver_to_milli v <? 65536000)%N = true ->
+  norm_version (norm_version v) = norm_version v.
+Proof.
+  intros H. apply N.ltb_lt in H. unfold norm_version at 1.
+  unfold norm_version at 1. rewrite ver_to_milli_of_decimal by exact H. reflexivity.
+Qed.
+
+Lemma height_fallback_nonzero h cm o pick : h <> 0 -> height_fallback h cm o pick = h.
+Proof. intros H. unfold height_fallback. assert (E : (h =? 0) = false) by lia. rewrite E. reflexivity. Qed.
+
+Lemma height_fallback_idem h cm o pick :
+  let c := height_fallback (if 0 <? h then h else 0) cm o pick in
+  height_fallback (if 0 <? c then c else 0) cm o pick = c.
+Proof.
+  cbv zeta. destruct (0 <? h) eqn:Eh.
+  - rewrite (height_fallback_nonzero h) by lia. rewrite Eh. apply height_fallback_nonzero. lia.
+  - set (c := height_fallback 0 cm o pick).
+    destruct (0 <? c) eqn:Ec.
+    + apply height_fallback_nonzero. lia.
+    + reflexivity.
+Qed.
+
+Lemma name_says_bold_normalize f : name_says_bold (normalize f) =
+  if negb (f_weight f =? 0)%N && negb (f_weight f =? 400)%N then name_says_bold f
+  else (f_bold f && negb (f_regular f)) || name_says_bold f.
+Proof.
+  unfold name_says_bold, normalize. cbn [f_weight f_family f_bold].
+  unfold name_says_bold.
+  destruct (negb (f_weight f =? 0)%N && negb (f_weight f =? 400)%N); reflexivity.
+Qed.
+
+Theorem normalize_idem f : (ver_to_milli (f_version f) <? 65536000)%N = true ->
+  normalize (normalize f) = normalize f.
+Proof.
+  intros Hver.
+  unfold normalize at 1.
+  rewrite name_says_bold_normalize.
+  unfold norm_height, std_ligatures.
+  cbn [normalize f_family f_width f_weight f_regular f_bold f_italic f_oblique f_serif f_script f_cpr f_version
        f_ctime f_mtime f_descr f_sample f_copyright f_trademark f_license f_licurl f_perm f_upm
-       f_asc f_desc f_gap f_cap f_xh f_angle f_upos f_uthick f_outl f_cmap f_gdef f_gsub f_gpos
-       ol_cff ol_id ol_n ol_heights ol_widths ol_names ol_maxp option_map
-       h_rev h_upm h_created h_modified h_bold h_italic
-       o_weight o_width o_bold o_italic o_regular o_oblique o_asc o_desc o_gap o_cap o_xh o_fclass o_cpr o_perm
-       x_asc x_desc x_gap x_angle x_widths widths_len].
-  (* glyph counts *)
-  destruct widths as [w|].
-  - (* one advance width per glyph *)
-    apply N.eqb_eq in Hv.
-    destruct (nonempty_of_length w n Hn Hv) as (a & w' & ->).
-    rewrite Hv.
-    assert (E0 : (0 <? n)%N = true) by lia. rewrite E0.
-    assert (E1 : (n =? 0)%N = false) by lia. rewrite E1.
-    rewrite N.ltb_irrefl, N.eqb_refl. cbn [negb].
-    destruct cff.
-    + (* CFF *)
-      apply andb_prop in Hcff as [Hnm Hmx].
-      destruct names; [discriminate|]. destruct maxp; [discriminate|].
-      cbn [negb andb ol_n x_widths].
-      rewrite N.eqb_refl. cbn [negb andb].
-      unfold choose_name. cbn [ns_win ns_winconf ns_mac ns_macconf is_some negb orb andb N.ltb N.compare Pos.compare Pos.compare_cont].
-      cbn [n_family n_subfamily n_descr n_copyright n_trademark n_license n_licurl n_version n_sample
-           c_family c_weight c_version c_copyright c_notice c_angle c_upos c_uthick
-           p_angle p_upos p_uthick p_names is_some].
-      admit.
-    + admit.
-  - admit.
-Admitted.
+       f_asc f_desc f_gap f_cap f_xh f_angle f_upos f_uthick f_outl f_cmap f_gdef f_gsub f_gpos].
+  unfold normalize, norm_height, std_ligatures.
+  f_equal.
+  - (* regular *)
+    unfold name_says_bold.
+    destruct (negb (f_weight f =? 0)%N && negb (f_weight f =? 400)%N);
+      destruct (f_regular f), (f_bold f), (f_italic f), (negb (f_angle f =? 0)), (f_oblique f);
+      try reflexivity; destruct ((weight_rounded (f_weight f) =? 700)%N && negb (contains s_Bold (f_family f))); reflexivity.
+  - (* bold *)
+    unfold name_says_bold.
+    destruct (negb (f_weight f =? 0)%N && negb (f_weight f =? 400)%N);
+      destruct (f_regular f), (f_bold f), (f_italic f), (negb (f_angle f =? 0)), (f_oblique f);
+      try reflexivity; destruct ((weight_rounded (f_weight f) =? 700)%N && negb (contains s_Bold (f_family f))); reflexivity.
+  - destruct (f_italic f), (negb (f_angle f =? 0)), (f_oblique f); reflexivity.
+  - destruct (f_serif f), (f_script f); reflexivity.
+  - apply norm_version_idem. exact Hver.
+  - apply codec_time_idem.
+  - apply codec_time_idem.
+  - apply norm_perm_idem.
+  - apply height_fallback_idem.
+  - apply height_fallback_idem.
+  - rewrite round16_grid. reflexivity.
+  - rewrite round16_grid. reflexivity.
+  - destruct (f_gsub f); [reflexivity|].
+    match goal with |- match ?x with _ => _ end = _ => destruct x; reflexivity end.
+Qed.
